@@ -163,12 +163,56 @@ func checkC11(r *Run) {
 					}
 				}
 			}
+			if !ok {
+				// the loop leaves because a helper of its own reported failure — and that helper records the failure
+				// (CloseWithError) before every return carrying that result (`if !c.writeResponse(resp) { return }`)
+				for _, cd := range condsAtInstr(ret) {
+					nc := normCond(cd)
+					hc, isCall := nc.V.(*ssa.Call)
+					if !isCall {
+						continue
+					}
+					g := staticCallee(&hc.Call)
+					if g == nil || g.Blocks == nil || !p.InModule(g) || g.Signature.Results().Len() != 1 {
+						continue
+					}
+					gcl := findCalls(g, "(*p9p.conn).CloseWithError")
+					all, nr := true, 0
+					for _, rs := range returnSites(g) {
+						k, isK := rs.Results[0].(*ssa.Const)
+						if !isK || k.Value == nil {
+							all = false
+							continue
+						}
+						if (k.Value.ExactString() == "true") != nc.Truth {
+							continue
+						}
+						nr++
+						dom := false
+						for _, c := range gcl {
+							if rs.DominatedBy(c) {
+								dom = true
+							}
+						}
+						if !dom {
+							all = false
+						}
+					}
+					if all && nr > 0 {
+						ok = true
+					}
+				}
+			}
 			r.Check(ok, "io-exit", fmt.Sprintf("(*conn).%s: exit #%d closes the connection (or is the <-closed case)", name, nRet), ret.Pos(),
 				"the "+name+" loop can exit without recording the failure: the serve loop keeps waiting on a dead connection")
 		}
 		r.Floor("io-exit", nRet, 2, "exits of conn."+name)
 		// I/O errors: every ReadFcall/WriteFcall failure path either continues (temporary) or closes
-		for _, c := range findCalls(fn, "invoke p9p.Channel.ReadFcall", "invoke p9p.Channel.WriteFcall") {
+		var ioCalls []*ssa.Call
+		for _, f := range p.withHelpers(fn, 1) {
+			ioCalls = append(ioCalls, findCalls(f, "invoke p9p.Channel.ReadFcall", "invoke p9p.Channel.WriteFcall")...)
+		}
+		for _, c := range ioCalls {
 			e := errResult(c)
 			r.Check(e != nil && len(referrers(e)) > 0, "io-exit", fmt.Sprintf("(*conn).%s: I/O error is examined", name), c.Pos(), "I/O errors are ignored")
 		}
